@@ -50,6 +50,10 @@ def generate(rng, tier):
     return case
 
 
+# names without a recognised extension, some of them ending in the *letters* of one
+NO_EXT = ["", ".txt", ".out", "_fa", "_fq", "_fastq", "xfasta", ".fastq_", ".fa.txt"]
+
+
 def expected_format(path, fasta_flag, input_fmt):
     """The documented rule."""
     if path == C.STDOUT:
@@ -119,9 +123,9 @@ def make_variant(base, rng, reference=False):
                     classes[pairkey] = [".fastq"] if fmt.strip_container(g[1]).endswith((".fastq", ".fq")) else [".fasta"]
                 else:
                     r_ = rng.random()
-                    classes[pairkey] = [".fastq", ".fq"] if r_ < 0.6 else ([".fasta", ".fa"] if r_ < 0.88 else ["", ".txt", ".out"])
+                    classes[pairkey] = [".fastq", ".fq"] if r_ < 0.6 else ([".fasta", ".fa"] if r_ < 0.88 else NO_EXT)
                 if v["fmt"] == "fasta" and not reference and rng.random() < 0.12:
-                    classes[pairkey] = ["", ".txt", ".out"]  # no recognised extension: falls back to the input format
+                    classes[pairkey] = NO_EXT  # no recognised extension: falls back to the input format
             e = rng.choice(classes[pairkey])
             c = "" if reference else rng.choice(OUT_CONTAINERS)
             outs.append([g[0], _stem(g[1]) + e + c])
